@@ -319,6 +319,9 @@ pub fn put_map_hdr(rng: &mut Rng, out: &mut Vec<u8>, len: usize, minimal: bool) 
 pub const KEYS: &[&str] = &["a", "b", "id", "key", "name", "ab", "", "k\u{e9}", "title", "x"];
 
 pub fn gen_key(rng: &mut Rng) -> Vec<u8> {
+    if rng.chance(1, 30) {
+        return Vec::new(); // the empty string is a legal key (and a legal name to ask for)
+    }
     if rng.chance(4, 5) {
         rng.pick(KEYS).as_bytes().to_vec()
     } else {
